@@ -465,3 +465,332 @@ Proof.
     + rewrite tr_start_of, tr_end_of by assumption. reflexivity.
     + destruct (no_tr_zero _ _ Hs He Htr) as [-> ->]. reflexivity.
 Qed.
+
+(** * calendar-data: prop, comp, expand *)
+Lemma u_cprop_lex nm t' : lexvar (w_cprop nm) t' -> u_cprop t' = Ok nm.
+Proof.
+  intros Hl. apply lexvar_elem_inv in Hl. destruct Hl as (a' & k' & -> & Ha & Hk).
+  unfold u_cprop. rewrite name_eqb_refl. cbn [negb].
+  rewrite (fold_attrs_name cprop_set _ _ _ _ cprop_set_inert Ha).
+  - reflexivity.
+  - cbn. intros x [<-|[]]. reflexivity.
+Qed.
+
+Definition comp_kid (w : w_comp) (kid : xtree) : res w_comp :=
+  match w with WComp name ap ps ac cs =>
+  match kid with
+  | Elem n' _ _ =>
+    if local_is n' "allprop" then Ok (WComp name true ps ac cs)
+    else if local_is n' "prop" then
+      match u_cprop kid with
+      | Ok p => Ok (WComp name ap (ps ++ [p]) ac cs)
+      | Err c => Err c
+      | Panic => Panic
+      end
+    else if local_is n' "allcomp" then Ok (WComp name ap ps true cs)
+    else if local_is n' "comp" then
+      match u_comp zero_wcomp kid with
+      | Ok c' => Ok (WComp name ap ps ac (cs ++ [c']))
+      | Err c => Err c
+      | Panic => Panic
+      end
+    else Ok w
+  | _ => Ok w
+  end end.
+
+Lemma u_comp_eq init n a k :
+  u_comp init (Elem n a k) =
+  if negb (name_eqb n (cn "comp")) then Err 400 else
+  match fold_attrs wcomp_set a init with
+  | Ok w0 => fold_res comp_kid k w0
+  | Err c => Err c
+  | Panic => Panic
+  end.
+Proof. reflexivity. Qed.
+
+Lemma comp_kid_skip w t : is_elem t = false -> comp_kid w t = Ok w.
+Proof. destruct w, t; cbn; [discriminate | reflexivity | reflexivity]. Qed.
+
+Lemma fold_cprops ps :
+  forall rest' nm ap wps ac cs, Forall2 lexvar (map w_cprop ps) rest' ->
+  fold_res comp_kid rest' (WComp nm ap wps ac cs) = Ok (WComp nm ap (wps ++ ps) ac cs).
+Proof.
+  induction ps as [|p ps IH]; intros rest' nm ap wps ac cs Hf; cbn [map] in Hf; inv_f2.
+  - now rewrite app_nil_r.
+  - match goal with H : lexvar (w_cprop p) _ |- _ =>
+      pose proof H as Hl; apply u_cprop_lex in H; rename H into Hu;
+      apply lexvar_elem_inv in Hl; destruct Hl as (a1 & k1 & -> & _) end.
+    cbn [fold_res comp_kid].
+    change (local_is (cn "prop") "allprop") with false.
+    change (local_is (cn "prop") "prop") with true. cbv iota. rewrite Hu.
+    match goal with HF : Forall2 lexvar (map w_cprop ps) _ |- _ =>
+      rewrite (IH _ nm ap (wps ++ [p])%list ac cs HF) end.
+    now rewrite <- app_assoc.
+Qed.
+
+Definition comp_ok (c : comp_request) : Prop :=
+  valid_comp_sel c = true -> forall t', lexvar (w_comp_sel c) t' ->
+  exists w, u_comp zero_wcomp t' = Ok w /\ decode_comp w = Ok c.
+
+Lemma fold_comps comps :
+  Forall comp_ok comps -> forallb valid_comp_sel comps = true ->
+  forall rest' nm ap ps ac cs, Forall2 lexvar (map w_comp_sel comps) rest' ->
+  exists ws,
+    fold_res comp_kid rest' (WComp nm ap ps ac cs) = Ok (WComp nm ap ps ac (cs ++ ws))
+    /\ map_res decode_comp ws = Ok comps.
+Proof.
+  induction 1 as [|c comps Hc0 _ IH]; intros Hv rest' nm ap ps ac cs Hf; cbn [map] in Hf; inv_f2.
+  - exists []. rewrite app_nil_r. auto.
+  - cbn [forallb] in Hv. apply andb_true_iff in Hv. destruct Hv as [Hp Hps].
+    match goal with H : lexvar (w_comp_sel c) _ |- _ =>
+      pose proof H as Hl; apply (Hc0 Hp) in H; destruct H as (w1 & Hu & Hd);
+      destruct c; apply lexvar_elem_inv in Hl; destruct Hl as (a1 & k1 & -> & _) end.
+    cbn [fold_res comp_kid].
+    change (local_is (cn "comp") "allprop") with false.
+    change (local_is (cn "comp") "prop") with false.
+    change (local_is (cn "comp") "allcomp") with false.
+    change (local_is (cn "comp") "comp") with true. cbv iota. rewrite Hu.
+    match goal with HF : Forall2 lexvar (map w_comp_sel comps) _ |- _ =>
+      destruct (IH Hps _ nm ap ps ac (cs ++ [w1])%list HF) as (ws & -> & Hm) end.
+    exists (w1 :: ws). rewrite <- app_assoc. split; [reflexivity |].
+    cbn [map_res]. rewrite Hd. cbn in Hm |- *. now rewrite Hm.
+Qed.
+
+Lemma w_comp_sel_is_elem c : is_elem (w_comp_sel c) = true.
+Proof. now destruct c. Qed.
+
+Lemma flag_inv n t' : lexvar (Elem n [] []) t' -> exists a' k', t' = Elem n a' k'.
+Proof. intros H. apply lexvar_elem_inv in H. destruct H as (a' & k' & -> & _). eauto. Qed.
+
+Lemma u_comp_lex c : comp_ok c.
+Proof.
+  induction c as [nm ap ps ac comps ex IH] using comp_request_ind2.
+  intros Hv t' Hl. cbn [w_comp_sel] in Hl. apply lexvar_elem_inv in Hl. destruct Hl as (a' & k' & -> & Ha & Hk).
+  change (negb (pcdata (cn "comp"))) with true in Hk.
+  rewrite u_comp_eq. rewrite name_eqb_refl. cbn [negb].
+  rewrite (fold_attrs_name wcomp_set _ _ _ _ wcomp_set_inert Ha) by (cbn; tauto).
+  unfold wcomp_set, zero_wcomp. change (String.eqb "name" "name") with true. cbv iota.
+  rewrite fold_res_elems by apply comp_kid_skip.
+  cbn [valid_comp_sel] in Hv.
+  apply andb_true_iff in Hv. destruct Hv as [Hv Hcs].
+  apply andb_true_iff in Hv. destruct Hv as [Hv Hex].
+  apply andb_true_iff in Hv. destruct Hv as [Hap Hac].
+  destruct ex; [discriminate |].
+  assert (Hk0 : forallb is_elem ((if ap then [Elem (cn "allprop") [] []] else map w_cprop ps)
+                                 ++ (if ac then [Elem (cn "allcomp") [] []] else map w_comp_sel comps)) = true).
+  { rewrite forallb_app. apply andb_true_iff. split.
+    - destruct ap; [reflexivity |]. now apply forallb_map_elem.
+    - destruct ac; [reflexivity |]. apply forallb_map_elem. apply w_comp_sel_is_elem. }
+  destruct (kids_var_econtent _ _ Hk Hk0) as [_ Hf].
+  apply Forall2_app_inv_l in Hf. destruct Hf as (l1 & l2 & Hf1 & Hf2 & ->).
+  rewrite fold_res_app.
+  assert (H1 : fold_res comp_kid l1 (WComp nm false [] false []) = Ok (WComp nm ap ps false [])).
+  { destruct ap.
+    - destruct ps; [|discriminate]. inv_f2.
+      match goal with H : lexvar (Elem _ [] []) _ |- _ => apply flag_inv in H; destruct H as (a1 & k1 & ->) end.
+      reflexivity.
+    - now rewrite (fold_cprops _ _ nm false [] false [] Hf1). }
+  rewrite H1. cbv beta iota.
+  destruct ac.
+  - destruct comps; [|discriminate]. inv_f2.
+    match goal with H : lexvar (Elem _ [] []) _ |- _ => apply flag_inv in H; destruct H as (a1 & k1 & ->) end.
+    cbn [fold_res comp_kid].
+    change (local_is (cn "allcomp") "allprop") with false.
+    change (local_is (cn "allcomp") "prop") with false.
+    change (local_is (cn "allcomp") "allcomp") with true. cbv iota.
+    eexists. split; [reflexivity |]. cbn [decode_comp].
+    destruct ap; [destruct ps; [|discriminate] |]; reflexivity.
+  - destruct (fold_comps _ IH Hcs _ nm ap ps false [] Hf2) as (wcs & -> & Hmc).
+    eexists. split; [reflexivity |]. cbn [decode_comp app andb].
+    destruct ap; [destruct ps; [|discriminate] |]; cbn [andb negb List.length Nat.eqb]; rewrite Hmc; reflexivity.
+Qed.
+
+Lemma w_comp_sel_expand c : w_comp_sel (set_expand c None) = w_comp_sel c.
+Proof. now destruct c. Qed.
+
+Lemma wcd_kid_skip w t : is_elem t = false -> wcd_kid w t = Ok w.
+Proof. destruct t; cbn; [discriminate | reflexivity | reflexivity]. Qed.
+
+Lemma u_caldata_lex c t' :
+  valid_cr c = true -> lexvar (w_caldata c) t' ->
+  exists d, u_cal_data_req zero_wcd t' = Ok d /\ decode_calendar_data_req d = Ok c.
+Proof.
+  intros Hv Hl. apply lexvar_elem_inv in Hl. destruct Hl as (a' & k' & -> & Ha & Hk).
+  change (negb (pcdata (cn "calendar-data"))) with true in Hk.
+  unfold u_cal_data_req. rewrite name_eqb_refl. cbn [negb].
+  rewrite fold_res_elems by apply wcd_kid_skip.
+  unfold valid_cr in Hv. apply andb_true_iff in Hv. destruct Hv as [Hc Hex].
+  assert (Hk0 : forallb is_elem (w_comp_sel c :: opt_list w_expand_el (cr_expand c)) = true).
+  { cbn. rewrite w_comp_sel_is_elem. now destruct (cr_expand c). }
+  destruct (kids_var_econtent _ _ Hk Hk0) as [_ Hf]. inversion Hf as [|x y l l' Hx Hl]; subst. clear Hf.
+  rewrite <- w_comp_sel_expand in Hx.
+  pose proof Hx as Hx'. apply (u_comp_lex _ Hc) in Hx. destruct Hx as (wc & Hu & Hd).
+  rewrite w_comp_sel_expand in Hx'. destruct c as [nm ap ps ac cs ex].
+  cbn [w_comp_sel] in Hx'. apply lexvar_elem_inv in Hx'. destruct Hx' as (a1 & k1 & -> & _).
+  cbn [fold_res wcd_kid]. change (local_is (cn "comp") "comp") with true. cbv iota.
+  cbn [wcd_comp zero_wcd opt_default]. rewrite Hu.
+  cbn [cr_expand] in *. destruct ex as [[s e]|]; cbn [opt_list] in Hl; inv_f2.
+  - apply andb_true_iff in Hex. destruct Hex as [Hs He].
+    match goal with H : lexvar (w_expand_el _) _ |- _ =>
+      pose proof H as Hl; apply (u_expand_lex _ _ _ Hs He) in H; rename H into Hue;
+      apply lexvar_elem_inv in Hl; destruct Hl as (a2 & k2 & -> & _) end.
+    cbn [fold_res wcd_kid].
+    change (local_is (cn "expand") "comp") with false.
+    change (local_is (cn "expand") "expand") with true. cbv iota.
+    cbn [wcd_expand wcd_comp zero_wcd opt_default]. rewrite Hue.
+    eexists. split; [reflexivity |]. unfold decode_calendar_data_req. cbn [wcd_comp wcd_expand].
+    rewrite Hd. reflexivity.
+  - eexists. split; [reflexivity |]. unfold decode_calendar_data_req. cbn [wcd_comp wcd_expand].
+    rewrite Hd. reflexivity.
+Qed.
+
+(** written trees carry no declarations or foreign attributes *)
+Lemma plain_comp_sel c : plain_b (w_comp_sel c) = true.
+Proof.
+  induction c as [nm ap ps ac comps ex IH] using comp_request_ind2. cbn [w_comp_sel plain_b].
+  apply andb_true_iff. split; [reflexivity |]. rewrite forallb_app. apply andb_true_iff. split.
+  - destruct ap; [reflexivity |]. apply forallb_forall. intros x Hin. apply in_map_iff in Hin.
+    destruct Hin as (y & <- & _). reflexivity.
+  - destruct ac; [reflexivity |]. apply forallb_forall. intros x Hin. apply in_map_iff in Hin.
+    destruct Hin as (y & <- & Hy). rewrite Forall_forall in IH. now apply IH.
+Qed.
+
+Lemma plain_caldata c : plain_b (w_caldata c) = true.
+Proof.
+  unfold w_caldata. cbn [plain_b forallb andb]. rewrite plain_comp_sel.
+  destruct (cr_expand c) as [[s e]|]; reflexivity.
+Qed.
+
+Lemma dprop_kid_skip w t : is_elem t = false -> dprop_kid w t = Ok w.
+Proof. destruct t; cbn; [discriminate | reflexivity | reflexivity]. Qed.
+
+Lemma u_dprop_lex c t' :
+  valid_cr c = true -> lexvar (w_dprop c) t' ->
+  exists raws, u_dprop [] t' = Ok raws /\ decode_prop_caldata (Some raws) = Ok c.
+Proof.
+  intros Hv Hl. apply lexvar_elem_inv in Hl. destruct Hl as (a' & k' & -> & Ha & Hk).
+  change (negb (pcdata (dn "prop"))) with true in Hk.
+  unfold u_dprop. rewrite name_eqb_refl. cbn [negb].
+  rewrite fold_res_elems by apply dprop_kid_skip.
+  destruct (kids_var_econtent _ _ Hk eq_refl) as [_ Hf]. inv_f2.
+  match goal with H : lexvar (Elem (dn "getetag") _ _) _ |- _ =>
+    apply lexvar_elem_inv in H; destruct H as (a1 & k1 & -> & _) end.
+  match goal with H : lexvar (w_caldata c) _ |- _ =>
+    pose proof H as Hl; apply lexvar_strip in H; [|apply plain_caldata];
+    apply (u_caldata_lex _ _ Hv) in H; destruct H as (d & Hu & Hd);
+    apply lexvar_elem_inv in Hl; destruct Hl as (a2 & k2 & -> & _) end.
+  cbn [fold_res dprop_kid app]. eexists. split; [reflexivity |].
+  unfold decode_prop_caldata.
+  change (strip_decls (strip_foreign (Elem (cn "calendar-data") a2 k2))) with (strip (Elem (cn "calendar-data") a2 k2)).
+  cbn [find strip_foreign strip_decls is_caldata].
+  change (name_eqb (dn "getetag") (cn "calendar-data")) with false. cbv iota.
+  unfold strip in Hu |- *. cbn [strip_foreign strip_decls] in Hu |- *.
+  unfold is_caldata at 1. rewrite name_eqb_refl. cbv iota. rewrite Hu. exact Hd.
+Qed.
+
+Lemma filter_kid_skip w t : is_elem t = false -> filter_kid w t = Ok w.
+Proof. destruct t; cbn; [discriminate | reflexivity | reflexivity]. Qed.
+
+Lemma u_filter_lex f t' :
+  valid_cf f = true -> lexvar (Elem (cn "filter") [] [w_cf f]) t' ->
+  exists w, u_filter zero_wcf t' = Ok w /\ decode_comp_filter w = Ok f.
+Proof.
+  intros Hv Hl. apply lexvar_elem_inv in Hl. destruct Hl as (a' & k' & -> & Ha & Hk).
+  change (negb (pcdata (cn "filter"))) with true in Hk.
+  unfold u_filter. rewrite name_eqb_refl. cbn [negb].
+  rewrite fold_res_elems by apply filter_kid_skip.
+  assert (Hk0 : forallb is_elem [w_cf f] = true) by (cbn; now rewrite w_cf_is_elem).
+  destruct (kids_var_econtent _ _ Hk Hk0) as [_ Hf]. inv_f2.
+  match goal with H : lexvar (w_cf f) _ |- _ =>
+    pose proof H as Hl; apply (u_cf_lex _ Hv) in H; destruct H as (w & Hu & Hd);
+    destruct f; apply lexvar_elem_inv in Hl; destruct Hl as (a1 & k1 & -> & _) end.
+  cbn [fold_res filter_kid]. change (local_is (cn "comp-filter") "comp-filter") with true. cbv iota.
+  rewrite Hu. eauto.
+Qed.
+
+(** * The two reports *)
+Section Top.
+Variable href_fmt : string -> string.
+Variable href_parse : string -> option string.
+
+Lemma wq_kid_skip w t : is_elem t = false -> wq_kid w t = Ok w.
+Proof. destruct t; cbn; [discriminate | reflexivity | reflexivity]. Qed.
+Lemma wm_kid_skip w t : is_elem t = false -> wm_kid href_parse w t = Ok w.
+Proof. destruct t; cbn; [discriminate | reflexivity | reflexivity]. Qed.
+
+Lemma u_href_lex p t' :
+  valid_path href_fmt href_parse p = true -> lexvar (w_href href_fmt p) t' -> u_href href_parse t' = Ok p.
+Proof.
+  intros Hv Hl. apply lexvar_elem_inv in Hl. destruct Hl as (a' & k' & -> & Ha & Hk).
+  change (negb (pcdata (dn "href"))) with false in Hk.
+  unfold u_href. rewrite (kids_var_text _ _ _ Hk eq_refl), text_of_text_kids.
+  unfold valid_path in Hv. destruct (href_parse (href_fmt p)); [|discriminate].
+  apply String.eqb_eq in Hv. now subst.
+Qed.
+
+Lemma fold_hrefs ps :
+  forallb (valid_path href_fmt href_parse) ps = true ->
+  forall rest' w, Forall2 lexvar (map (w_href href_fmt) ps) rest' ->
+  fold_res (wm_kid href_parse) rest' w =
+  Ok {| wm_prop := wm_prop w; wm_allprop := wm_allprop w; wm_propname := wm_propname w;
+        wm_hrefs := wm_hrefs w ++ ps |}.
+Proof.
+  induction ps as [|p ps IH]; intros Hv rest' w Hf; cbn [map] in Hf; inv_f2.
+  - rewrite app_nil_r. now destruct w.
+  - cbn [forallb] in Hv. apply andb_true_iff in Hv. destruct Hv as [Hp Hps].
+    match goal with H : lexvar (w_href _ p) _ |- _ =>
+      pose proof H as Hl; apply (u_href_lex _ _ Hp) in H; rename H into Hu;
+      apply lexvar_elem_inv in Hl; destruct Hl as (a1 & k1 & -> & _) end.
+    cbn [fold_res wm_kid].
+    change (name_eqb (dn "href") (dn "prop")) with false.
+    change (name_eqb (dn "href") (dn "allprop")) with false.
+    change (name_eqb (dn "href") (dn "propname")) with false.
+    change (name_eqb (dn "href") (dn "href")) with true. cbv iota. rewrite Hu.
+    match goal with HF : Forall2 lexvar (map _ ps) _ |- _ => rewrite (IH Hps _ _ HF) end.
+    cbn [wm_prop wm_allprop wm_propname wm_hrefs]. now rewrite <- app_assoc.
+Qed.
+
+Theorem server_denotes path r doc :
+  valid href_fmt href_parse r = true ->
+  lexvar (rfc_write href_fmt r) doc ->
+  handle_report href_parse path doc = Ok (backend_call_of path r).
+Proof.
+  intros Hv Hl. destruct r as [q|m]; cbn [rfc_write valid backend_call_of] in *.
+  - unfold rfc_write_query in Hl. apply andb_true_iff in Hv. destruct Hv as [Hcr Hcf].
+    apply lexvar_elem_inv in Hl. destruct Hl as (a' & k' & -> & Ha & Hk).
+    change (negb (pcdata (cn "calendar-query"))) with true in Hk.
+    unfold handle_report. rewrite name_eqb_refl. unfold u_calendar_query. rewrite name_eqb_refl. cbn [negb].
+    rewrite fold_res_elems by apply wq_kid_skip.
+    destruct (kids_var_econtent _ _ Hk eq_refl) as [_ Hf]. inv_f2.
+    match goal with H : lexvar (w_dprop _) _ |- _ =>
+      pose proof H as Hl; apply (u_dprop_lex _ _ Hcr) in H; destruct H as (raws & Hu & Hd);
+      apply lexvar_elem_inv in Hl; destruct Hl as (a1 & k1 & -> & _) end.
+    match goal with H : lexvar (Elem (cn "filter") _ _) _ |- _ =>
+      pose proof H as Hl; apply (u_filter_lex _ _ Hcf) in H; destruct H as (wf & Huf & Hdf);
+      apply lexvar_elem_inv in Hl; destruct Hl as (a2 & k2 & -> & _) end.
+    cbn [fold_res wq_kid]. rewrite name_eqb_refl. cbn [wq_prop zero_wq opt_default]. rewrite Hu.
+    change (name_eqb (cn "filter") (dn "prop")) with false.
+    change (name_eqb (cn "filter") (dn "allprop")) with false.
+    change (name_eqb (cn "filter") (dn "propname")) with false.
+    change (local_is (cn "filter") "filter") with true. cbv iota.
+    cbn [wq_filter zero_wq]. rewrite Huf.
+    unfold handle_query. cbn [wq_prop wq_filter]. rewrite Hd, Hdf. now destruct q.
+  - unfold rfc_write_multiget in Hl.
+    apply andb_true_iff in Hv. destruct Hv as [Hv Hps]. apply andb_true_iff in Hv. destruct Hv as [Hcr Hne].
+    apply lexvar_elem_inv in Hl. destruct Hl as (a' & k' & -> & Ha & Hk).
+    change (negb (pcdata (cn "calendar-multiget"))) with true in Hk.
+    unfold handle_report.
+    change (name_eqb (cn "calendar-multiget") (cn "calendar-query")) with false.
+    rewrite name_eqb_refl. unfold u_multiget. rewrite name_eqb_refl. cbn [negb].
+    rewrite fold_res_elems by apply wm_kid_skip.
+    assert (Hk0 : forallb is_elem (w_dprop (mg_cr m) :: map (w_href href_fmt) (mg_paths m)) = true).
+    { cbn. now apply forallb_map_elem. }
+    destruct (kids_var_econtent _ _ Hk Hk0) as [_ Hf]. inversion Hf as [|x y l l' Hx Hl]; subst. clear Hf.
+    pose proof Hx as Hx'. apply (u_dprop_lex _ _ Hcr) in Hx. destruct Hx as (raws & Hu & Hd).
+    apply lexvar_elem_inv in Hx'. destruct Hx' as (a1 & k1 & -> & _).
+    cbn [fold_res wm_kid]. rewrite name_eqb_refl. cbn [wm_prop zero_wm opt_default]. rewrite Hu.
+    rewrite (fold_hrefs _ Hps _ _ Hl). cbn [wm_prop wm_hrefs zero_wm app].
+    unfold handle_multiget. cbn [wm_prop wm_hrefs]. rewrite Hd. reflexivity.
+Qed.
+
+End Top.
